@@ -17,7 +17,7 @@ def RULE(tier):
     q = tier == "quick"
     return ("full enumeration: intToB64/b64ToInt for every i < 2^%d x l in 1..6 plus 64^k-1, 64^k, 64^k+1 (k<=22), 2^64, 2^128+-1; "
             "codeB64ToB2/codeB2ToB64 for every Base64 string of length <= %d (quick: plus every length-4 string starting with A, B or _); nabSextets for every sextet count 3..12 with the last needed byte taking all 256 values over 4 fill patterns and 0-2 surplus bytes, and for every byte string of length <= %d x "
-            "every admissible l. Every case is a distinct input; outcomes are compared with arithmetic written from the statement."
+            "every admissible l, plus the first two l that do NOT fit (both conversions must refuse). Every case is a distinct input; outcomes are compared with arithmetic written from the statement."
             % (18 if q else 22, 3 if q else 4, 2 if q else 3))
 
 
